@@ -842,6 +842,12 @@ pub fn c09(c: &mut Ctx) {
         }
         let occ_lo_at = |s: u64| occ_at.iter().rev().find(|(x, _)| *x <= s).map(|x| x.1).unwrap_or(0);
         let occ_hi_at = |s: u64| occ_lo_at(s) + asks.iter().filter(|(i, t)| *i <= s && *t > s).count() as i64;
+        // back-pressure waits: a send that was given no timeout never gives up on a full mailbox
+        for o in h.ops.iter().filter(|o| o.a == Some(a) && o.us.is_none() && (o.tag.is_send() || o.tag == OpTag::Stop)) {
+            if matches!(o.res(), Some(Res::ErrTimeout { .. })) {
+                c.v("C09", "untimed-send-gave-up", o.inv_seq, format!("actor {a}: {:?} of message {:?} was given no timeout, yet it returned Err(Timeout) instead of waiting for room in the mailbox", o.tag, o.mid));
+            }
+        }
         // a send never waits while a slot is free
         for o in h.ops.iter().filter(|o| o.a == Some(a) && o.tag.is_tell()) {
             if matches!(o.res(), Some(Res::NoHandle) | Some(Res::Unsupported)) || o.inv_seq >= horizon || !o.budget {
